@@ -20,6 +20,13 @@ CHECKS["C12"] = dict(
     note="Trusted: Coq kernel incl. vm_compute; the fail-closed translator mathtable.py (literal table rows, textual normal form of add_function_mapping and find_known_functions.visit_Call, README regex, builtins' __module__ from the interpreter); the hand-written <cmath> signature table; what each std:: function computes (C library). Traces are tests.",
     technique="Coq proof by computation over a table regenerated from source + end-to-end traces",
 )
+CHECKS["C09"] = dict(
+    category="proof",
+    text="Fail-closed refusal proved in Coq on a kind-level hand model of the translator's visitor and the executor's top-level checks (KindModel.v): every documented unsupported construct (unknown binary/unary operator, comparison chain, slice, unimplemented Aggregate forms, any Python node class without a visitor, unknown function, bare lambda, unknown constant type) is 'always erroneous', and an always-erroneous construct makes translation return an error in EVERY strict context at any depth, for every registry, frame stack and fuel (C09_refuses_at_any_position, C09_no_package; conditional refusals for value-as-sequence, arithmetic on a sequence, column-count mismatch; C09_kwargs_ignored_refuted for the known finding). Tie: the extracted model and the implementation are run on the same ASTs (serialised after apply_ast_transformations) for valid generated queries and for a malformed stream of 30 graft classes at random positions on all three backends; verdicts and exception classes are compared; a grafted query the implementation accepts is the concrete failing input.",
+    design_ref="5.9",
+    note="Trusted: Coq kernel; hand model KindModel.v (kinds only - no scopes, no C++ text; lazily resolved lambda arguments mirrored with fuel, theorems hold for every fuel); AST/registry serialiser astser.py; extraction + OCaml driver; func_adl/qastle front end and metadata processing run before the modelled part (their refusals are observed, not modelled here); correspondence and graft stream are differential tests bounded by their generators. Known findings: keyword arguments dropped, raw object columns accepted.",
+    technique="Coq proof (induction over strict contexts of a kind-level translator model) + model/implementation correspondence on valid and grafted queries",
+)
 NOT_YET = {}
 
 def main():
